@@ -42,16 +42,36 @@ pub mod mpsc {
             r
         }
     }
+    /// The liveness flag of the receiving side lives in a global table (indexed by a per-channel number) rather
+    /// than behind the `Arc`: CBMC propagates constants through globals but not through heap cells, and with a
+    /// constant "receiver alive" the error branch of `send` (which drops the message, i.e. runs the drop glue of
+    /// `HandlerIn` with its embedded node records) is pruned where it is infeasible.
+    pub const MAX_CHANNELS: usize = 8;
+    pub static mut RX_ALIVE: [bool; MAX_CHANNELS] = [true; MAX_CHANNELS];
+    pub static mut NEXT_CHANNEL: usize = 0;
+    pub struct RxFlag(usize);
+    impl RxFlag {
+        pub fn get(&self) -> *mut bool {
+            unsafe { std::ptr::addr_of_mut!(RX_ALIVE[self.0]) }
+        }
+    }
     pub struct Chan<T> {
         pub queue: UnsafeCell<Queue<T>>,
-        pub rx_alive: UnsafeCell<bool>,
+        pub rx_alive: RxFlag,
         pub senders: UnsafeCell<usize>,
     }
     unsafe impl<T: Send> Send for Chan<T> {}
     unsafe impl<T: Send> Sync for Chan<T> {}
     impl<T> Chan<T> {
         fn new() -> Arc<Self> {
-            Arc::new(Chan { queue: UnsafeCell::new(Queue::new()), rx_alive: UnsafeCell::new(true), senders: UnsafeCell::new(1) })
+            let id = unsafe {
+                let i = NEXT_CHANNEL;
+                assert!(i < MAX_CHANNELS, "channel model: more than 8 channels");
+                NEXT_CHANNEL += 1;
+                RX_ALIVE[i] = true;
+                i
+            };
+            Arc::new(Chan { queue: UnsafeCell::new(Queue::new()), rx_alive: RxFlag(id), senders: UnsafeCell::new(1) })
         }
         /// number of queued messages (harness observation)
         pub fn len(&self) -> usize {
